@@ -2,6 +2,7 @@ package checks
 
 import (
 	"fmt"
+	"sync"
 	"strings"
 
 	"github.com/cloudspannerecosystem/memefish/ast"
@@ -609,6 +610,11 @@ func init() {
 			text := s.Text()
 			c.Sample(s.Root + ": " + text)
 			feed(text)
+			// the tightest spelling: no blank wherever the two neighbours still lex as themselves (">>", "a.b", "f(")
+			if tight := tightSpelling(s); tight != text {
+				c.Count("tight_spellings", 1)
+				feed(tight)
+			}
 			if c.Cost() <= base-2 || c.Cost() <= 1 {
 				for _, tr := range respellTrivia {
 					var b strings.Builder
@@ -624,6 +630,49 @@ func init() {
 			}
 		})
 	}
+}
+
+var glueOK sync.Map // "left\x00right" -> bool
+
+// tightSpelling joins neighbouring tokens without a blank when reference lexer R1 still sees exactly the
+// same two tokens in the glued text (decided pairwise, then confirmed on the whole text).
+func tightSpelling(s *grammar.Sentence) string {
+	var b strings.Builder
+	for i, t := range s.Src {
+		b.WriteString(t.Text)
+		if i+1 == len(s.Src) || t.NoGap {
+			continue
+		}
+		if t.Sticky || !canGlue(t.Text, s.Src[i+1].Text) {
+			b.WriteByte(' ')
+		}
+	}
+	tight := b.String()
+	want, ok1 := sigTokens(s.Text())
+	got, ok2 := sigTokens(tight)
+	// two closing type brackets glue to the token ">>", which the parser splits again
+	split := func(sig string) string {
+		return strings.ReplaceAll(sig, ">>\x00\x000\x01", ">\x00\x000\x01>\x00\x000\x01")
+	}
+	if !ok1 || !ok2 || split(want) != split(got) {
+		return s.Text()
+	}
+	return tight
+}
+
+func canGlue(a, b string) bool {
+	if a == ">" && b == ">" {
+		return true
+	}
+	key := a + "\x00" + b
+	if v, ok := glueOK.Load(key); ok {
+		return v.(bool)
+	}
+	w1, ok1 := sigTokens(a + " " + b)
+	w2, ok2 := sigTokens(a + b)
+	ok := ok1 && ok2 && w1 == w2
+	glueOK.Store(key, ok)
+	return ok
 }
 
 // respellTrivia are the uniform gap spellings used by the tree-based checks.
